@@ -91,8 +91,26 @@ class Model():
             if os.path.splitext(fname)[-1].lower() in ['.gzip', '.gz'] \
             else open
 
+        # The syntax trees are not written: encoding them recurses as deep as
+        # a formula is long (a formula of 200 operands exceeded the recursion
+        # limit). construct_from_json_file() builds them again.
+        formulas = {
+            id(formula): formula
+            for formula in [cell.formula for cell in self.cells.values()]
+            + list(self.formulae.values())
+            if formula is not None and formula.ast is not None}
+        trees = [(formula, formula.ast) for formula in formulas.values()]
+        output['compiled'] = bool(trees)
+        for formula, _ in trees:
+            formula.ast = None
+        try:
+            encoded = jsonpickle.encode(output, keys=True).encode()
+        finally:
+            for formula, tree in trees:
+                formula.ast = tree
+
         with file_open(fname, 'wb') as fp:
-            fp.write(jsonpickle.encode(output, keys=True).encode())
+            fp.write(encoded)
 
     def construct_from_json_file(self, fname, build_code=False):
         """Constructs a graph from a state persisted to disk."""
@@ -117,7 +135,7 @@ class Model():
         self.ranges = data['ranges']
         self.formulae = data['formulae']
 
-        if build_code:
+        if build_code or data.get('compiled'):
             self.build_code()
 
     def build_code(self):
